@@ -911,16 +911,82 @@ func genExhaustive(emit func(string), tier string) {
 	}
 }
 
+// genL3Case: the real pipeline edns -> cache -> iterative resolver against scripted
+// authorities: clients on both sides of the ceiling boundary ask one name; the
+// authority echoes the subnet it was sent with a scope at / above / below the source,
+// declares a foreign subnet, or says nothing; the case may end in two concurrent
+// cache-missing clients from different subnets behind a slow authority.
+func genL3Case(r *vlib.R, emit func(string)) int {
+	polS := genPolicy(r, r.Chance(7, 8))
+	spec := specFrom(strings.Fields(polS), false)
+	capS := vlib.Pick(r, []int{0, 120, 300, 100000})
+	emit(fmt.Sprintf("l3 new %s %d", polS, capS))
+	fam := 4
+	if r.Chance(1, 3) {
+		fam = 6
+	}
+	base := []byte{10, 1, byte(2 + r.Intn(2)), 0}
+	if fam == 6 {
+		base = v6(0x20, 0x01, 0x0d, 0xb8, 0, 1, byte(2+r.Intn(2)), 0)
+	}
+	w := len(base) * 8
+	c := min(spec.ceiling(fam), w)
+	var sites []site
+	for i := 0; i < 4; i++ {
+		a := append([]byte{}, base...)
+		switch i {
+		case 1:
+			a = orBytes(maskBytes(base, c), hostOnly(hostNoise(r, a), c))
+		case 2:
+			a = flipBit(a, c-1)
+		case 3:
+			a = flipBit(a, max(0, c-5))
+		}
+		sites = append(sites, site{client: genClient(r, spec, false), ecs: a})
+	}
+	decl := func() string {
+		switch r.Intn(8) {
+		case 0:
+			return "-"
+		case 1:
+			return fmt.Sprintf("E%d.%d.%d.%s", map[int]int{4: 1, 6: 2}[fam], c, c, vlib.Hex(maskBytes(pickSame(r, fam), c)))
+		}
+		return fmt.Sprintf("S%d", max(0, min(w, vlib.Pick(r, []int{c, c, c - 1, c + 1, spec.floor(fam), spec.floor(fam) + 1, 0, w, 1 + r.Intn(w)}))))
+	}
+	n := 5 + r.Intn(8)
+	for i := 0; i < n; i++ {
+		s := vlib.Pick(r, sites)
+		emit(fmt.Sprintf("l3 q %s %s %s", s.client, genOpts(r, spec, 85, s.ecs, true), decl()))
+	}
+	if r.Chance(1, 2) {
+		a, b := sites[0], sites[2+r.Intn(2)]
+		emit(fmt.Sprintf("l3 new %s %d", polS, capS))
+		emit(fmt.Sprintf("l3 race %s %s %s %s S%d", a.client, genOpts(r, spec, 100, a.ecs, false), b.client, genOpts(r, spec, 100, b.ecs, false), c))
+		n += 2
+	}
+	return n + 1
+}
+
+func pickSame(r *vlib.R, fam int) []byte {
+	if fam == 4 {
+		return pickV4(r)
+	}
+	return pickV6(r)
+}
+
 func gen(r *vlib.R, n int, tier string, emit func(string)) {
 	// vlib seeds k and k+1 are the same Weyl sequence one step apart; re-key
 	// through the output mixer so neighbouring seeds explore different cases.
 	r = vlib.NewR(r.U64())
 	genExhaustive(emit, tier)
 	for n > 0 {
-		if r.Chance(1, 2) {
+		switch k := r.Intn(20); {
+		case k < 9:
 			n -= genEcsCase(r, emit)
-		} else {
+		case k < 18:
 			n -= genPipeCase(r, emit)
+		default:
+			n -= genL3Case(r, emit)
 		}
 	}
 }
